@@ -343,6 +343,9 @@ class ODLDecoder(PVLDecoder):
                 if not isinstance(dt, (datetime, time)):
                     # A date or a leap-second text cannot carry an offset.
                     raise ValueError
+                if gd["dt"].endswith("Z"):
+                    # Already marked as UTC, cannot have an offset, too.
+                    raise ValueError
                 offset = timedelta(
                     hours=int(gd["hour"]), minutes=int(gd["minute"])
                 )
